@@ -27,7 +27,7 @@ def V(rid, did):
     r = RoleOf(did)
     return W(KS(rid, r), Thr(rid, r), did)
 Ver = z3.Function('Ver', ID, U64)
-Exp = z3.Function('Exp', ID, U64)
+Exp = z3.Function('Exp', ID, z3.IntSort())      # expiry instant (instants are only compared)
 Cons = z3.Function('Cons', ID, z3.BoolSort())             # root.consistent_snapshot
 # online key lists of a root (step 1.9):  key id at position i of role r's key list; r = RoleType index
 RKey = z3.Function('RKey', ID, z3.BitVecSort(8), z3.BitVecSort(8), ID)
